@@ -88,8 +88,9 @@ def rewrite_tensor_cpu_producer_npu_consumers(
         call_ps.inputs.append(orig_tens)
         call_ps.primary_op.inputs.append(orig_tens)
 
-    # Elementwise op can not overwrite ifm if input is used by many consumers
-    if orig_tens in cpu_subgraph.input_tensors and len(orig_tens.consumers()) > 1:
+    # Elementwise op can not overwrite ifm if the tensor is used by many consumers (CPU operators or other NPU subgraphs),
+    # whether it is an input of the network or produced by a CPU operator
+    if len(orig_tens.consumers()) > 1:
         new_tens.ifm_write_protected = True
 
     # Elementwise op can not overwrite ifm if tensor is used as output from sub graph
